@@ -30,7 +30,10 @@ SCHEMA = {
     "resolved": "ref", "_refs": "ref",
     # python-side values
     "index": "py", "parts": "py",
+    "Module._elaborated": "ref", "_elaborated": "bool", "_parent_bundle": "ref",
     # containers
+    "ports": "map[str,ref]", "signals": "map[str,ref]", "instances": "map[str,ref]", "instarrays": "map[str,ref]",
+    "instbundles": "map[str,ref]", "bundles": "map[str,ref]", "namespace": "map[str,ref]",
     "conns": "map[str,ref]", "_connected_ports": "set[pref]",
     "all": "map[str,ref]", "portrefs": "map[str,ref]", "connrefs": "map[str,ref]",
     "_slices": "set[ref]", "_concats": "set[ref]",
